@@ -311,17 +311,18 @@ static void env_cases(void)
   memset(longv, 'v', 305);
   memcpy(longv, "LONG=", 5);
   longv[305] = 0;
-  const char *entries[5] = { "A=1", "B=", "=C", longv, "\xc3\x9c=\xc3\x9f" };
+  const char *entries[7] = { "A=1", "B=", "=C", longv, "\xc3\x9c=\xc3\x9f", "NOEQUALS", "X=a=b" }; /* an entry without '=' is passed on as it is */
+#define NENT 7
   for (int pi = 0; pi < 3; pi++)
     for (int beh = 0; beh < 2; beh++) {
       check_env(parents[pi], beh, NULL, 1);
-      for (int a = 0; a < 5; a++) {
+      for (int a = 0; a < NENT; a++) {
         const char *e1[2] = { entries[a], NULL };
         check_env(parents[pi], beh, e1, 1);
-        for (int b = 0; b < 5; b++) {
+        for (int b = 0; b < NENT; b++) {
           const char *e2[3] = { entries[a], entries[b], NULL };
           check_env(parents[pi], beh, e2, 1);
-          for (int c = 0; c < 5; c++) {
+          for (int c = 0; c < NENT; c++) {
             const char *e3[4] = { entries[a], entries[b], entries[c], NULL };
             check_env(parents[pi], beh, e3, 1);
           }
